@@ -117,7 +117,8 @@ _KEEPS: dict = {}
 def _add_record_keeps_argument(cx: Cx) -> bool:
     """Does Converter.add_record put the Record OBJECT it is given into self.records (True on the pinned tree), or
     a deep copy it makes itself?  (_merge only reads the incoming record.)"""
-    key = id(cx.model)
+    _KEEPS = cx.model.__dict__.setdefault("_memo_keeps", {})  # per model object: ids are reused after collection
+    key = "add_record"
     if key in _KEEPS:
         return _KEEPS[key]
     fn = cx.model.functions.get("curies.api.Converter.add_record")
